@@ -9,13 +9,22 @@ type Chooser struct {
 	opt    *Options
 	Trail  []int // choices taken so far
 	Widths []int // number of alternatives at each point
+	Free   []bool // choice points whose alternatives do not count as deviations
 	Dev    int   // number of non-default choices taken so far
 }
 
 // NewReplay returns a chooser that replays the given trail (for --replay).
 func NewReplay(trail []int) *Chooser { return &Chooser{prefix: trail, opt: &Options{MaxDev: -1}} }
 
-func (c *Chooser) Choose(n int) int {
+// ChooseFree is Choose for points where every alternative is free (a forced switch).
+func (c *Chooser) ChooseFree(n int) int {
+	v := c.choose(n, true)
+	return v
+}
+
+func (c *Chooser) Choose(n int) int { return c.choose(n, false) }
+
+func (c *Chooser) choose(n int, free bool) int {
 	if n <= 0 {
 		panic("seqx: Choose(0)")
 	}
@@ -27,11 +36,12 @@ func (c *Chooser) Choose(n int) int {
 			panic("seqx: replayed choice out of range: the execution is not deterministic")
 		}
 	}
-	if v != 0 {
+	if v != 0 && !free {
 		c.Dev++
 	}
 	c.Trail = append(c.Trail, v)
 	c.Widths = append(c.Widths, n)
+	c.Free = append(c.Free, free)
 	return v
 }
 
@@ -63,19 +73,21 @@ func Explore(opt Options, run func(c *Chooser)) (int, bool) {
 	n := 0
 	prefix := []int{}
 	var trail, widths []int
+	var free []bool
 	for {
 		skip := opt.Mine != nil && opt.ShardDepth > 0 && len(prefix) >= opt.ShardDepth && !opt.Mine(prefix[:opt.ShardDepth])
 		if !skip {
 			c := &Chooser{prefix: prefix, opt: &opt}
 			run(c)
 			n++
-			trail, widths = c.Trail, c.Widths
+			trail, widths, free = c.Trail, c.Widths, c.Free
 			if len(trail) < len(prefix) {
 				panic("seqx: execution ended before its replay prefix was consumed: not deterministic")
 			}
 		} else {
 			// prefix = previous trail[:k] + [v+1]; the widths up to k are those of the previous run
 			widths = widths[:len(prefix)]
+			free = free[:len(prefix)]
 			trail = prefix
 		}
 		if opt.Stop != nil && opt.Stop() {
@@ -86,13 +98,16 @@ func Explore(opt Options, run func(c *Chooser)) (int, bool) {
 		devAt := make([]int, len(trail))
 		for i, v := range trail {
 			devAt[i] = dev
-			if v != 0 {
+			if v != 0 && !free[i] {
 				dev++
 			}
 		}
 		for i := len(trail) - 1; i >= 0; i-- {
 			if trail[i]+1 < widths[i] {
 				d := devAt[i] + 1
+				if free[i] {
+					d = devAt[i]
+				}
 				if opt.MaxDev >= 0 && d > opt.MaxDev {
 					continue
 				}
